@@ -244,7 +244,11 @@ fn grid_cases() -> Vec<GridCase> {
             out.push(GridCase::LessThanF { n: Fb::of(n), v: Fb::of(v) });
             out.push(GridCase::LessThanF { n: Fb::of(n), v: Fb::of(next_up(n)) });
             out.push(GridCase::LessThanF { n: Fb::of(n), v: Fb::of(next_down(n)) });
-            let _ = v;
+            out.push(GridCase::LessThanF { n: Fb::of(n), v: Fb::of(v) });
+        }
+        // a float-valued source state can hold NaN (e.g. a ratio 0/0) or -inf: neither is "below n" / both are ordered
+        for v in [f64::NAN, -f64::NAN, f64::NEG_INFINITY] {
+            out.push(GridCase::LessThanF { n: Fb::of(n), v: Fb::of(v) });
         }
     }
     for n in 1..=12u32 {
@@ -269,7 +273,7 @@ fn grid_strategy() -> impl Strategy<Value = GridCase> {
     prop_oneof![
         (any::<u32>(), any::<u32>()).prop_map(|(n, v)| GridCase::LessThanIter { n, v }),
         (0u32..50, 0u32..60).prop_map(|(n, v)| GridCase::LessThanEval { n, v }),
-        (-1e3f64..1e3, -1e3f64..1e3).prop_map(|(n, v)| GridCase::LessThanF { n: Fb::of(n), v: Fb::of(v) }),
+        (-1e3f64..1e3, prop_oneof![8 => (-1e3f64..1e3).boxed(), 1 => Just(f64::NAN).boxed(), 1 => prop_oneof![Just(f64::INFINITY), Just(f64::NEG_INFINITY), Just(-0.0), Just(0.0)].boxed()]).prop_map(|(n, v)| GridCase::LessThanF { n: Fb::of(n), v: Fb::of(v) }),
         (1u32..5000, any::<u32>()).prop_map(|(n, v)| GridCase::EveryN { n, v }),
         (1u32..50, 0u32..40).prop_map(|(n, k)| GridCase::EveryN { n, v: n.saturating_mul(k) }),
         (proptest::option::of(-1e3f64..1e3), -1e3f64..1e3, 0f64..10.0).prop_map(|(b, o, e)| GridCase::Optimum { best: b.map(Fb::of), opt: Fb::of(o), eps: Fb::of(e) }),
@@ -375,6 +379,100 @@ fn loop_oracle(c: &LoopCase) -> Result<(), Failure> {
     if c.shape % 2 != 1 {
         let it = st.try_get_value::<Iterations>().ok();
         ensure_that!(it == Some(n), "C10 final iteration count", "final Iterations = {it:?}, expected {n}");
+    }
+    Ok(())
+}
+
+// ------------------------------------------------------------------------------------------------
+// (2') nested iteration-bounded loops: every loop has its own counter and its own progress value
+// ------------------------------------------------------------------------------------------------
+
+static NESTED_LOG: std::sync::Mutex<Vec<(u8, u64)>> = std::sync::Mutex::new(Vec::new());
+
+/// Records the progress value (of the innermost enclosing iteration-bounded loop) it sees, under its tag.
+#[derive(Clone, Serialize)]
+struct ProgressProbe(u8);
+impl Component<RealP> for ProgressProbe {
+    fn execute(&self, _p: &RealP, st: &mut State<RealP>) -> ExecResult<()> {
+        let pr = st.try_get_value::<Progress<ValueOf<Iterations>>>()?;
+        NESTED_LOG.lock().unwrap().push((self.0, pr.to_bits()));
+        Ok(())
+    }
+}
+
+/// Loop bounds from the outside in (1-3 levels); every inner loop sits in a scope of its own, between a probe before
+/// and a probe after it.
+#[derive(Clone, Debug, Serialize, Deserialize)]
+pub struct NestedCase {
+    pub bounds: Vec<u32>,
+}
+
+pub struct NestedCheck;
+
+impl Check for NestedCheck {
+    type Case = NestedCase;
+    fn name(&self) -> String {
+        "C10/nested-loops".into()
+    }
+    fn classes(&self) -> &'static [&'static str] {
+        &["depth >= 2", "depth 3", "an inner loop with more passes than its enclosing loop"]
+    }
+    fn oracle(&self, c: &NestedCase) -> Outcome {
+        let mut cl = 0;
+        let b: Vec<u32> = c.bounds.iter().take(3).map(|n| n % 6).collect();
+        if b.len() >= 2 {
+            cl |= 1;
+        }
+        if b.len() >= 3 {
+            cl |= 2;
+        }
+        if b.windows(2).any(|w| w[1] > w[0]) {
+            cl |= 4;
+        }
+        Outcome::new(b.len() >= 2 && b.iter().all(|n| *n >= 1), cl, nested_oracle(&b))
+    }
+}
+
+fn nested_build(bounds: &[u32], level: u8, b: mahf::configuration::ConfigurationBuilder<RealP>) -> mahf::configuration::ConfigurationBuilder<RealP> {
+    let Some((n, rest)) = bounds.split_first() else { return b };
+    let rest = rest.to_vec();
+    b.while_(LessThanN::iterations(*n), move |b| {
+        let b = b.do_(Box::new(ProgressProbe(2 * level)));
+        let b = if rest.is_empty() { b } else { b.scope_(|b| nested_build(&rest, level + 1, b)) };
+        b.do_(Box::new(ProgressProbe(2 * level + 1)))
+    })
+}
+
+fn nested_expect(bounds: &[u32], level: u8, out: &mut Vec<(u8, u64)>) {
+    let Some((n, rest)) = bounds.split_first() else { return };
+    for k in 0..*n {
+        let pr = (f64::from(k) / f64::from(*n)).to_bits();
+        out.push((2 * level, pr));
+        nested_expect(rest, level + 1, out);
+        out.push((2 * level + 1, pr));
+    }
+}
+
+fn nested_oracle(bounds: &[u32]) -> Result<(), Failure> {
+    NESTED_LOG.lock().unwrap().clear();
+    let cfg = nested_build(bounds, 0, Configuration::builder()).build();
+    let p = problem();
+    let mut st: State<RealP> = State::new();
+    let r = catch(|| cfg.run(&p, &mut st));
+    ensure_that!(matches!(r, Ok(Ok(()))), "C10 loop run failed", "nested loops {bounds:?}: run failed: {r:?}");
+    let log = NESTED_LOG.lock().unwrap().clone();
+    let mut want = Vec::new();
+    nested_expect(bounds, 0, &mut want);
+    if log != want {
+        let k = log.iter().zip(&want).position(|(a, b)| a != b).unwrap_or(log.len().min(want.len()));
+        let show = |v: &[(u8, u64)]| v.iter().map(|(t, b)| format!("L{}{}:{}", t / 2, if t % 2 == 0 { "a" } else { "b" }, f64::from_bits(*b))).collect::<Vec<_>>().join(" ");
+        let sig = if log.len() != want.len() { "C10 loop pass count" } else { "C10 nested loop progress" };
+        fail!(
+            sig,
+            "loops nested through scopes with bounds {bounds:?} (outermost first): a probe before (a) and after (b) the nested scope in every pass must see pass/n of ITS loop; first difference at record {k}: saw {} expected {}",
+            show(&log[k.saturating_sub(2)..(k + 3).min(log.len())]),
+            show(&want[k.saturating_sub(2)..(k + 3).min(want.len())])
+        );
     }
     Ok(())
 }
@@ -764,15 +862,17 @@ pub fn run_all(ctx: &mut Ctx, replay: Option<&Path>) {
     ctx.assume("RandomChance: 6-sigma band on a fixed sample size; smaller deviations are invisible");
     let g = GridCheck;
     let l = LoopCheck;
+    let nl = NestedCheck;
     let ch = ChangeCheck;
     let rc = ChanceCheck;
     let f = FormulaCheck;
     if let Some(p) = replay {
-        let _ = ctx.replay_file(&g, p) || ctx.replay_file(&l, p) || ctx.replay_file(&ch, p) || ctx.replay_file(&rc, p) || ctx.replay_file(&f, p);
+        let _ = ctx.replay_file(&g, p) || ctx.replay_file(&l, p) || ctx.replay_file(&nl, p) || ctx.replay_file(&ch, p) || ctx.replay_file(&rc, p) || ctx.replay_file(&f, p);
         return;
     }
     ctx.regressions(&g);
     ctx.regressions(&l);
+    ctx.regressions(&nl);
     ctx.regressions(&ch);
     ctx.regressions(&rc);
     ctx.regressions(&f);
@@ -780,6 +880,11 @@ pub fn run_all(ctx: &mut Ctx, replay: Option<&Path>) {
     ctx.random(&g, grid_strategy(), ctx.tier.pick(300_000, 1_500_000));
     ctx.exhaustive(&l, "n in 0..40 x {plain, in scope}", (0..40u32).flat_map(|n| (0..2u8).map(move |shape| LoopCase { n, shape })));
     ctx.random(&l, (0u32..400, 0u8..2).prop_map(|(n, shape)| LoopCase { n, shape }), ctx.tier.pick(300, 3000));
+    ctx.exhaustive(
+        &nl,
+        "all loop nests of depth 1-3 (each inner loop in a scope of its own) with bounds 0-5 per level, a progress probe before and after the nested scope in every pass",
+        (0u32..6).flat_map(|a| std::iter::once(vec![a]).chain((0u32..6).flat_map(move |b| std::iter::once(vec![a, b]).chain((0u32..6).map(move |c| vec![a, b, c]))))).map(|bounds| NestedCase { bounds }),
+    );
     // ChangeOf: all histories of length <= 5 over {1,2,3} with PartialEq and Delta(2), i64
     let mut hs: Vec<ChangeCase> = Vec::new();
     for len in 0..=ctx.tier.pick(5, 7) {
